@@ -41,7 +41,7 @@ class World:
 
     def __init__(self, mdib_file='70041_MDIB_Final.xml', *, async_mgr=False, role_provider=True, validate=True,
                  network: loopback.Network | None = None, max_subscription_duration=7200, ssl_context_container=None,
-                 components_hook=None, contextstates_in_getmdib=True, instance_id=1, chunk_size=0):
+                 components_hook=None, contextstates_in_getmdib=True, instance_id=1, chunk_size=0, periodic_reports_interval=None):
         self.network = network or loopback.Network()
         self.wsd = loopback.WsdStub()
         self.mdib = ProviderMdib.from_string(load_mdib_bytes(mdib_file))
@@ -65,7 +65,8 @@ class World:
                                     max_subscription_duration=max_subscription_duration, components=comps,
                                     role_provider_components=role_components, chunk_size=chunk_size)
         self.provider.contextstates_in_getmdib = contextstates_in_getmdib
-        self.provider.start_all(start_rtsample_loop=False, shared_http_server=self.provider_server)
+        self.provider.start_all(start_rtsample_loop=False, shared_http_server=self.provider_server,
+                                periodic_reports_interval=periodic_reports_interval)
         self.consumers: list[SdcConsumer] = []
         self.ssl_context_container = ssl_context_container
 
